@@ -30,7 +30,14 @@ ENVS = {
     "late": ["A:10037"] + ["A:1037", "F:f"] * 220,
     # nothing arrives any more (about 190 s of virtual time)
     "silent": ["A:4037", "A:10037", "A:10037", "A:21037", "A:21037", "A:41037", "A:41037", "A:41037"],
+    # the controller keeps broadcasting sensor data whose frame-version table says "version 0" for two request kinds and never
+    # answers those requests: an unchanged table must not queue anything again (else the queue grows for ever)
+    "bcast": ["A:1037", "F:v:2:0"] * 70,
 }
+
+
+def last_z(events):
+    return max(i for i, e in enumerate(events) if e.split("~")[0] == "Z")
 
 BASES = [
     # (consumers, reconnect, open script, events)  -- close() is inserted at every position
@@ -53,6 +60,15 @@ BASES = [
     (3, 1, [], ["C", "F:u", "F:u", "F:u", "F:p:69", "F:f", "Q:1", "F:u", "F:p:69"]),
     (2, 1, [], ["C", "F:p:69", "F:u", "F:u", "F:p:69", "F:u", "F:f"]),
     (1, 0, [], ["C", "F:u", "F:p:69", "Q:1", "F:p:69"]),
+    # the connection object is used again: close() returns, connect() again (also through the context manager), traffic,
+    # loss; close() twice in a row; close() before the first connect()
+    (3, 1, [], ["C", "F:p:69", "Z", "C", "F:s:1:1", "P:m:0", "Q:1", "F:f", "X", "A:537", "F:f"]),
+    (2, 1, ["ooo", "ooo", "e", "ooo"], ["C~ctx", "F:s:1:1", "A:9537", "F:f", "F:f", "Z~ctx", "A:1037", "C~ctx", "F:p:69", "X", "A:20037", "F:f"]),
+    (3, 0, [], ["Z", "C", "F:p:69", "P:d:69", "Z", "Z", "A:537", "C", "F:p:69", "Q:1", "F:f"]),
+    (1, 1, ["ooh", "ooo"], ["C", "F:p:81", "Z", "A:10037", "Z", "C", "F:p:81", "F:p:69"]),
+    # frame-version tables: version 0 for one / two kinds, repeated, changed
+    (3, 1, [], ["C", "F:v:2:0", "F:f", "F:v:2:0", "F:v:1:3", "F:f", "F:v:2:3", "F:f", "F:f"]),
+    (2, 1, [], ["C", "F:p:69", "F:v:1:0", "A:9537", "F:v:2:0", "F:f", "F:v:2:0"]),
     # frames from addresses that have no device class (ecoNET, broadcast) before the first frames of real devices
     (3, 1, [], ["C", "F:o:86", "F:p:69", "F:o:0", "F:p:81", "F:f", "Q:1", "F:p:69"]),
     (2, 0, [], ["C", "F:p:69", "F:o:0", "F:s:1:1", "F:o:86", "F:p:81"]),
@@ -108,7 +124,9 @@ def gen(rng, tier):
             elif quick and bi >= len(BASES):
                 chosen = [envs[(k + bi) % len(envs)]]
             else:
-                chosen = [e for e in envs if e != "late"]
+                chosen = [e for e in envs if e not in ("late", "bcast")]
+            if any(e.startswith("F:v") for e in b[3][:k]):
+                chosen = chosen + ["bcast"]
             for env in chosen:
                 yield ("base" if bi < len(BASES) else "random") + ":" + env, with_close(b, k, env)
 
@@ -117,7 +135,7 @@ def judge(res, lab, h, segs, extras, info, m):
     cfg, rc, script, events = h
     line = connhist.fmt_line(h)
     states = [connrun.parse_state(s) for s in segs]
-    zpos = events.index("Z")
+    zpos = last_z(events)
     env = lab.split(":")[-1] if ":" in lab else "?"
     before = states[zpos - 1] if zpos > 0 else dict(q="0", c="0", p="0")
     xb = extras[zpos - 1] if zpos > 0 else dict(classes=dict(rq=0, s=0, k=0), drain_mode="ok")
@@ -218,7 +236,7 @@ def evaluate(res, items):
     model = connhist.model_batch(hists)
     for (lab, h), (segs, extras, info), m in zip(items, impl, model):
         line = connhist.fmt_line(h)
-        zpos = h[3].index("Z")
+        zpos = last_z(h[3])
         pre = extras[zpos - 1]["classes"] if zpos > 0 else {}
         nontrivial = zpos > 0 and (pre.get("p", 0) + pre.get("k", 0) + pre.get("l", 0) + pre.get("r", 0) + pre.get("s", 0)
                                    + pre.get("d", 0) + pre.get("b", 0)) > 0
@@ -339,8 +357,8 @@ def replay(ctx):
     h = connhist.parse_line(f["input"]["history"])
     res = Result("C12")
     res.rule = "replay of one recorded history"
-    if "Z" not in h[3]:
+    if not any(e.split("~")[0] == "Z" for e in h[3]):
         h = (h[0], h[1], h[2], h[3] + ["Z"])
-    env = "sending" if any(e.startswith("F:") for e in h[3][h[3].index("Z") + 1:]) else "silent"
+    env = "sending" if any(e.startswith("F:") for e in h[3][last_z(h[3]) + 1:]) else "silent"
     evaluate(res, [("replay:" + env, h)])
     return res
